@@ -16,10 +16,13 @@ func (id DeploymentID) Equals(other DeploymentID) bool {
 
 // Validate method for DeploymentID and returns nil
 func (id DeploymentID) Validate() error {
-	_, err := sdk.AccAddressFromBech32(id.Owner)
+	owner, err := sdk.AccAddressFromBech32(id.Owner)
 	switch {
 	case err != nil:
 		return sdkerrors.Wrap(sdkerrors.ErrInvalidAddress, "DeploymentID: Invalid Owner Address")
+	case owner.String() != id.Owner:
+		// ids are stored and compared as text: accept only the canonical rendering of the address
+		return sdkerrors.Wrap(sdkerrors.ErrInvalidAddress, "DeploymentID: Owner Address not in canonical form")
 	case id.DSeq == 0:
 		return sdkerrors.Wrap(sdkerrors.ErrInvalidSequence, "DeploymentID: Invalid Deployment Sequence")
 	}
